@@ -30,7 +30,8 @@ T2 = {
     "overflow|%sparse_unsigned|Sub|0" % DE:
         (r"^Sub\(\((?P<ch>.*) as u8\), 48\)$", "ch matched '0'..='9' so ch as u8 >= b'0'", [r"^true: Le\(48, {ch}\)$", r"^true: Le\({ch}, 57\)$"]),
     "overflow|%sparse_unsigned::{closure#0}|Sub|0" % DE:
-        (r"48\)$", "ch matched '0'..='9' so ch as u8 >= b'0' (closure of the checked accumulation)"),
+        (r"^Sub\(\((?P<ch>.*) as u8\), 48\)$", "ch matched '0'..='9' so ch as u8 >= b'0' (closure of the checked accumulation)",
+         [r"^(parent )?true: Le\(48, {ch}\)$", r"^(parent )?true: Le\({ch}, 57\)$"]),
     "index|%sparse_unsigned|str::index|0" % DE:
         (r"str::index\((?P<s>.*), std::ops::RangeFrom::RangeFrom\{start: 1\}\)", "the next char matched '0'..='9': one ASCII byte",
          [r"^true: Le\(48, \(<std::str::Chars<'a> as std::iter::Iterator>::next\(core::str::<impl str>::chars\({s}\)\) as Some\)\.0\)$",
@@ -155,6 +156,13 @@ def t1(site, p):
     if k == "alloc":
         args = x.get("args") or []
         size = args[-1] if args else None
+        if size is not None and site.body.kind == "Closure" and p is not None:
+            # a captured variable stands for the value the constructing function bound it to
+            from ..expr import resolve_upvars
+            try:
+                size = resolve_upvars(p, site.body, size)
+            except Exception:  # noqa: BLE001
+                pass
         if size is not None:
             if size[0] == "len":
                 return "capacity is the length of an existing collection"
@@ -232,6 +240,11 @@ def run(ctx):
                 # Vec::with_capacity(n)), the audited fact is about the size: it is the validated
                 # stream count (rule C18-R4)
                 ent = (r"global_metadata\([^()]*\)\.num_streams\)$", "the size is metadata.num_streams == number of listed (and fully parsed) streams: validated by parse_htsvoice (rule C18-R4)")
+            if ent is None and s.kind == "alloc" and s.fn.startswith("model::interporation_weight::"):
+                # the same for the weight tables: sized by the constructor's two parameters, which
+                # load_model passes as (voices.len(), metadata.num_streams) - an in-memory count
+                # and the validated stream count (the call site is checked by C18-R4)
+                ent = (r", (nvoices|nstream)\)$", "sized by InterporationWeight::new's parameter: the number of voices the caller passed (in-memory list) / the validated stream count (C18-R4)")
             if ent:
                 reason = ent[1]
                 used_t2.add(s.key)
